@@ -205,9 +205,23 @@ func (r *Reader) decodeG3ScanLine1D() {
 
 // decodeG3ScanLine2D decodes a Group 3 2D scanline (K > 0).
 func (r *Reader) decodeG3ScanLine2D() {
+	numEOL := 0
 	for r.err == nil && r.peekBits(11) == 0 {
 		r.consumeBits(11)
 		r.waitForOne() // allow for fill bits
+		numEOL++
+		// The return-to-control sequence is six times EOL followed by the
+		// tag bit 1.  No coded line starts with eleven zeros, so a tag bit 1
+		// which is followed by another EOL belongs to that sequence.
+		if !r.IgnoreEndOfBlock && r.err == nil && r.peekBits(12) == 1<<11 {
+			r.consumeBits(1)
+			if numEOL >= 5 {
+				// five times EOL+1 seen and the sixth EOL is ahead
+				r.line = r.line[:0]
+				r.err = io.EOF
+				return
+			}
+		}
 	}
 
 	tp := r.readBits(1)
